@@ -67,7 +67,7 @@ def strategy(tier):
             "bound_type": draw(st.sampled_from(["float", "float", "int", "int_lo", "int_hi"])),
             # how the variable signals are given: plain Signals, basic slices of one design Signal (array kinds only),
             # or Signals constructed with a pre-allocated sensitivity buffer (reset() then clears it in place)
-            "var_form": draw(st.sampled_from(["signals", "signals", "slices", "prealloc"])),
+            "var_form": draw(st.sampled_from(["signals", "signals", "slices", "prealloc", "fancy"])),
             "move": draw(st.sampled_from([0.2, 0.1, 0.3, 0.5])) if conv else
             draw(st.one_of(st.sampled_from([0.2, 0.1, 0.05, 0.5, 0.01]), st.floats(0.01, 0.5))),
             "vol": draw(st.floats(0.02, 0.98)) if conv else
@@ -241,7 +241,7 @@ def build_problem(case):
 
 def var_form(case, prob):
     form = case.get("var_form", "signals")
-    if form == "slices" and any(kd != "arr" for kd in prob["kinds"]):
+    if form in ("slices", "fancy") and any(kd != "arr" for kd in prob["kinds"]):
         form = "signals"
     return form
 
@@ -253,11 +253,22 @@ def run_oc(case, prob, log):
     variables = []
     form = var_form(case, prob)
     base = pym.Signal("xall", state=np.array(prob["x0"], dtype=float)) if form == "slices" else None
+    if form == "fancy":
+        # design variables selected from a larger field by index arrays (a non-design region stays fixed): the state
+        # getter of such a slice returns a copy, every write has to go through the setter
+        rngf = np.random.default_rng([case["payload_seed"], 5])
+        ntot = prob["n"] + 3
+        perm = rngf.permutation(ntot)
+        field = rngf.uniform(0.2, 0.8, ntot)
+        field[perm[:prob["n"]]] = prob["x0"]
+        base = pym.Signal("field", state=field)
     for i, kind in enumerate(prob["kinds"]):
         v = prob["x0"][cum[i]:cum[i + 1]]
         state = float(v[0]) if kind == "pyfloat" else (np.float64(v[0]) if kind == "npfloat" else np.array(v))
         if form == "slices":
             variables.append(base[int(cum[i]):int(cum[i + 1])])
+        elif form == "fancy":
+            variables.append(base[perm[int(cum[i]):int(cum[i + 1])]])
         elif form == "prealloc" and kind == "arr":
             variables.append(pym.Signal(f"x{i}", state=state, sensitivity=np.zeros_like(state)))
         else:
